@@ -52,8 +52,19 @@ NEW, RUNNABLE, BLOCKED, SLEEPING, EXTERNAL, DONE = (
 
 _ACTIVE: Optional["Sim"] = None
 _TOKEN = re.compile(r"-[0-9a-f]{6,}$")
-# dask tasks that run repository code get their own simulated thread
-THREADED_RE = re.compile(r"(run_pipelines_tuple_to_array|fitness\w*|evolve\w*|apply_parameters\w*|_save_data_2d|user_\w+):")
+_UUID = re.compile(r"-?[0-9a-f]{8}-[0-9a-f]{4}-[0-9a-f]{4}-[0-9a-f]{4}-[0-9a-f]{12}")
+_HEX = re.compile(r"-?[0-9a-f]{16,}")
+# dask tasks that run repository code get their own simulated thread; everything else
+# (getitem / transpose / reshape / finalize bookkeeping) runs inline
+THREADED_NAME = re.compile(r"^(vectorize__run_pipelines_tuple_to_array|evolve|_apply_parameters|_save_data_2d|user_\w+)$|vectorize_fitness")
+
+
+def canonical_name(name) -> str:
+    name = str(name)
+    name = _UUID.sub("", name)
+    name = _HEX.sub("", name)
+    name = _TOKEN.sub("", name)
+    return name.strip("-")
 
 
 def current_sim() -> Optional["Sim"]:
@@ -71,13 +82,15 @@ def canonical_task_label(args: tuple) -> str:
                 name, idx = key[0], key[1:]
             else:
                 name, idx = key, ()
-            name = _TOKEN.sub("", str(name))
-            # keep only the leading function-ish part, drop embedded tokens
-            name = re.sub(r"[0-9a-f]{16,}", "", name)
-            parts.append(name + ":" + ",".join(str(i) for i in idx))
+            parts.append(canonical_name(name) + ":" + ",".join(str(i) for i in idx))
         return "task[" + ";".join(parts) + "]"
     except Exception:  # pragma: no cover - defensive
         return "task[?]"
+
+
+def is_threaded(label: str) -> bool:
+    inner = label[5:-1] if label.startswith("task[") else label
+    return any(THREADED_NAME.search(part.split(":")[0]) for part in inner.split(";"))
 
 
 class SimThread:
@@ -483,6 +496,13 @@ class Sim:
             self._arrivals.append(th)
             self.count("adopted")
             all_in = len(self._arrivals) >= max(1, self.expected_foreign)
+            if all_in:
+                # real arrival order is not ours to choose: make everything that depends on it canonical
+                arr = sorted(self._arrivals, key=lambda t: t.key)
+                ords = sorted(t.ordinal for t in self._arrivals)
+                prios = sorted(t.prio for t in self._arrivals)
+                for t, o, p in zip(arr, ords, prios):
+                    t.ordinal, t.prio = o, p
             if all_in and self.holder is None:
                 self._arrivals = []
                 cands = self._candidates()
@@ -530,7 +550,7 @@ class SimPool:
     def submit(self, fn, *args, **kwargs) -> Future:
         sim = self.sim
         label = canonical_task_label(args)
-        if not THREADED_RE.search(label):
+        if not is_threaded(label):
             # bookkeeping tasks (getitem / transpose / finalize ...): pure functions of private
             # data whose key names carry non-reproducible tokens; run them inline, unlogged
             sim.count("inline_task")
